@@ -14,6 +14,18 @@ class KTable:
         if wngrid is not None:
             wngrid_filter = np.where((self.wavenumberGrid >= wngrid.min()) & (
                 self.wavenumberGrid <= wngrid.max()))[0]
+        if wngrid is not None and not np.array_equal(
+                self.wavenumberGrid.take(wngrid_filter), wngrid):
+            # Include the bracketing native points so the ends of the
+            # requested grid are interpolated and not clamped
+            native = self.wavenumberGrid
+            if len(wngrid_filter) > 0:
+                low, high = wngrid_filter[0] - 1, wngrid_filter[-1] + 1
+            else:
+                high = np.searchsorted(native, wngrid.min())
+                low = high - 1
+            wngrid_filter = np.arange(max(low, 0),
+                                      min(high, len(native) - 1) + 1)
         orig = self.compute_opacity(temperature, pressure, wngrid_filter).reshape(-1, len(self.weights))
 
         if wngrid is None or np.array_equal(self.wavenumberGrid.take(wngrid_filter), wngrid):
